@@ -229,9 +229,23 @@ func ext4GroupSpanScenario(oracle string, depth int) *fatScen {
 	return &fatScen{Name: "groupspan", Cfg: cfg, Prefix: pre, Letters: l, Depth: depth, Oracle: oracle}
 }
 
+// ext4ManyInodesScenario: 32 inodes per group (256 blocks per group); 19 files already exist, so the next creates take the
+// last inodes of group 0 and the first ones of group 1 (an inode number that is an exact multiple of the inodes per group
+// belongs to the group BEFORE that boundary).
+func ext4ManyInodesScenario(oracle string, depth int) *fatScen {
+	cfg := fatCfg{Type: 4, Size: 2 << 20, Start: 4096, E4SectorsPerBlock: 2, E4Feat: "bpg=256"}
+	var pre []fsOp
+	for i := 0; i < 18; i++ {
+		pre = append(pre, fsOp{Kind: "create", Path: fmt.Sprintf("m%02d", i)})
+	}
+	l := []fsOp{{Kind: "create", Path: "n1"}, {Kind: "write", Path: "n2", Off: "0", Len: "c+1"}, {Kind: "create", Path: "n3"}, {Kind: "mkdir", Path: "nd"}, {Kind: "symlink", Path: "nl", Path2: strings.Repeat("t", 70)},
+		{Kind: "remove", Path: "m05"}, {Kind: "reopen"}}
+	return &fatScen{Name: "manyinodes", Cfg: cfg, Prefix: pre, Letters: l, Depth: depth, Oracle: oracle}
+}
+
 func ext4AllScens(oracle string, quick bool, depth int) []*fatScen {
 	var out []*fatScen
-	out = append(out, ext4GroupSpanScenario(oracle, 3))
+	out = append(out, ext4GroupSpanScenario(oracle, 3), ext4ManyInodesScenario(oracle, 4))
 	for i, c := range ext4Configs(quick) {
 		out = append(out, ext4Scenarios(c, oracle, depth, quick)...)
 		if i == 0 || !quick {
